@@ -22,7 +22,7 @@ STROPS = {"eq": 1, "ne": 2, "contains": 3, "ncontains": 4, "lacks": 4, "hasprefi
 FIELDS = ["x", "y", "host", "$hostname", "$line", "lat_ms", "a.b", "status", "k1", "Größe", "resp-time", "user_id", "n"]
 KEYWORDS = ["select", "from", "where", "set", "group", "rorder", "order", "interval", "limit", "outfile", "logformat"]
 STRINGS = ["foo", "a b", "x,y", "select", "", "GET /index.html", "50%", "it's", "from where"]
-NUMS = ["0", "1", "42", "-3", "2.5", "10.000", "007"]
+NUMS = ["0", "1", "42", "-3", "2.5", "10.000", "007", "0.1", "16777217", "-0.3", "1234567.891"]
 
 
 def gen_aq(rng):
@@ -181,6 +181,8 @@ def denote(aq):
         else:
             w.append([1 if c[1][0] == "b" else 2, c[1][1], STROPS[c[2]], 1 if c[3][0] == "b" else 2, c[3][1]])
     d["where"] = w
+    # the numeric operands' values (float64 of the literal; 0 where the operand is not a number)
+    d["wherefloats"] = [[float(c[1]) if c[0] == "f" and is_num(c[1]) else 0.0, float(c[3]) if c[0] == "f" and is_num(c[3]) else 0.0] for c in aq.get("where", [])]
     st = []
     for s in aq.get("set", []):
         if s[1] == "func":
